@@ -56,6 +56,9 @@ ShareStates(mt) == IF mt = "shares" THEN SharesCls ELSE {"none"}
    not depend on these tables) *)
 RecvOk(fl, mt, lay, sto, shs) ==
     fl = "core" \/ (lay = "rich" /\ shs = "none" /\ sto \in (IF mt = "keys" THEN {"none", "wrong1"} ELSE {"none"}))
+(* receiver position: "middle" with every receiver state; "first" and "last" with the receiver
+   states without stored rows (both layouts, every flavour) *)
+PosOk(po, sto, shs) == po = "middle" \/ (sto = "none" /\ shs = "none")
 
 (* history family (core assembly): the set's key generation was restarted with other key
    material.  Every combination (current key material, fresh / stale handler objects) other than
@@ -81,12 +84,13 @@ Init ==
     /\ \E fl \in MCFlavours : \E mt \in MCTypes : \E tp \in BOOLEAN : \E ty \in BOOLEAN : \E ve \in BOOLEAN : \E ins \in BOOLEAN :
        \E set \in Sets : \E snd \in Senders(mt) : \E ex \in Extras :
        \E lay \in Layouts : \E sto \in StoredCls : \E shs \in ShareStates(mt) :
-       \E ek \in {"main", "other"} : \E hi \in {"fresh", "stale"} :
+       \E ek \in {"main", "other"} : \E hi \in {"fresh", "stale"} : \E po \in Positions :
           /\ RecvOk(fl, mt, lay, sto, shs)
+          /\ PosOk(po, sto, shs)
           /\ c = [fl   |-> fl,
                   m    |-> [mt |-> mt, topicOk |-> tp, typeOk |-> ty, versionOk |-> ve, instOk |-> ins,
                             set |-> set, snd |-> snd, entries |-> <<>>, extra |-> ex],
-                  recv |-> [layout |-> lay, stored |-> sto, shares |-> shs, eonkey |-> ek],
+                  recv |-> [layout |-> lay, stored |-> sto, shares |-> shs, eonkey |-> ek, pos |-> po],
                   hist |-> hi]
           /\ HistOk(fl, c.m, lay, sto, shs, ek, hi)
           /\ SDev(fl, c.m) <= MaxDist
